@@ -110,7 +110,7 @@ def build_pdb(ctx, natom=2, variant="default"):
     kw = dict(atnums=z, atcoords=c, title=title)
     exp = dict(atnums=z, atcoords=c, title=title or "Created with IOData")
     sym = ctx.mode == "sym"
-    if variant in ("full", "bonds"):
+    if variant in ("full", "bonds", "star"):
         occ = np.ones(natom, dtype=object if sym else float)
         bf = np.zeros(natom, dtype=object if sym else float)
         for p in probes:
@@ -125,10 +125,13 @@ def build_pdb(ctx, natom=2, variant="default"):
         exp.update({"atffparams.attypes": attypes, "atffparams.restypes": restypes, "atffparams.resnums": resnums,
                     "extra.occupancies": occ, "extra.bfactors": bf, "extra.chainids": chain,
                     "extra.compound": "MY COMPOUND"})
-    if variant == "bonds":
+    if variant in ("bonds", "star"):
         b = [[0, natom - 1, 1]] if natom > 1 else []
         if natom > 2:
             b += [[0, 1, 2], [natom - 2, natom - 1, 1]]
+        if variant == "star":
+            # a hub atom bonded to every other atom (more partners than one CONECT record holds)
+            b = [[0, j, 1] for j in range(1, natom)]
         bonds = np.array(sorted(b), dtype=int).reshape(-1, 3)
         kw["bonds"] = bonds
         # CONECT records store no bond order: every bond comes back as type 8 ('un', unknown/any)
